@@ -37,6 +37,16 @@ def main(argv=None):
     import warnings
     warnings.simplefilter("ignore")
     seed = int(os.environ.get("VERIF_SEED", "0") or 0)
+    from . import guard
+    guard.install([os.path.join(core.VERIF, "evidence"), os.path.join(core.VERIF, "replays"), os.environ.get("MC_DUMP")])
+    if a.replay:
+        a.replay = os.path.abspath(a.replay)
+    # relative paths produced by the code under test must never resolve into /verif or /repo
+    import atexit, shutil, tempfile
+    cwd = tempfile.mkdtemp(prefix="mc_cwd_%d_" % os.getpid(), dir=core.SCRATCH)
+    os.chdir(cwd)
+    main_pid = os.getpid()
+    atexit.register(lambda: os.getpid() == main_pid and shutil.rmtree(cwd, ignore_errors=True))
     check = load(a.pid)
     if a.triage:
         os.environ["MC_TRIAGE"] = "1"
